@@ -48,6 +48,12 @@ pub enum PrefixOp {
     DeliverAll,
     /// every real node's armed timer for the window fires once
     TimersOnce(u64),
+    /// the same three, restricted to the listed real nodes (indices into `nodes`): the others lag
+    BlockTo(usize, Vec<usize>),
+    DeliverAmong(Vec<usize>),
+    TimersOnceAt(u64, Vec<usize>),
+    /// Byzantine vote k of the alphabet reaches the listed real nodes
+    ByzTo(usize, Vec<usize>),
 }
 
 pub struct ClusterWorld {
@@ -142,6 +148,8 @@ impl ClusterSys {
             CK::Skip => (VK::Skip, Some(VK::SkipFb)),
             CK::Final => (VK::Final, None),
         };
+        let overlap = blk & 0x80 != 0 && matches!(kind, CK::Skip | CK::NotarFb);
+        let blk = blk & 0x7f;
         let b = if matches!(kind, CK::Skip | CK::Final) { 0 } else { blk };
         let mut s1 = 1u32 << self.byz;
         let mut s2 = 0u32;
@@ -154,6 +162,12 @@ impl ClusterSys {
         }
         let stake: u64 = (0..self.epoch.n()).filter(|i| (s1 | s2) >> i & 1 == 1).map(|i| self.epoch.stakes[i]).sum();
         let need = if kind == CK::FastFinal { 4 } else { 3 };
+        if overlap {
+            if self.epoch.meets(stake, need, 5) || !self.epoch.meets(stake + self.epoch.stakes[self.byz], need, 5) {
+                return None;
+            }
+            return Some(CertSpec { kind, slot, blk: b, s1, s2: s2 | 1 << self.byz });
+        }
         if !self.epoch.meets(stake, need, 5) {
             return None;
         }
@@ -327,8 +341,18 @@ impl ClusterSys {
             }
             triples.push((CK::Skip, s, 0));
             triples.push((CK::Final, s, 0));
+            // adversarial shapes a correct validator must refuse: the Byzantine signer in both halves
+            triples.push((CK::Skip, s, 0x80));
+            for b in 0..=self.max_blk {
+                triples.push((CK::NotarFb, s, b | 0x80));
+            }
         }
-        let certs: Vec<(CertSpec, Cert)> = triples.into_iter().filter_map(|t| self.forge_spec(w, t)).map(|sp| { let c = self.factory.raw_cert(&sp); (sp, c) }).collect();
+        let certs: Vec<(CertSpec, Cert)> = triples
+            .into_iter()
+            .filter_map(|t| self.forge_spec(w, t))
+            .map(|sp| { let c = self.factory.raw_cert(&sp); (sp, c) })
+            .filter(|(_, c)| validate_cert_cached(c, &self.epoch).is_some())
+            .collect();
         let has = |k: CK, s: u64| certs.iter().any(|(c, _)| c.kind == k && c.slot == s);
         let mut finals: Vec<Blk> = Vec::new();
         let mut suspicious = false;
@@ -465,6 +489,45 @@ impl Sys for ClusterSys {
                         for i in 0..h {
                             w.cores[i].fire_timer(*win);
                             self.collect(&mut w, i);
+                        }
+                    }
+                    PrefixOp::BlockTo(k, at) => {
+                        for i in at {
+                            self.deliver_block(&mut w, *i, *k);
+                        }
+                    }
+                    PrefixOp::DeliverAmong(at) => loop {
+                        let mut moved = false;
+                        for i in at {
+                            for j in at {
+                                while w.next[*i][*j] < w.emitted[*j].len() {
+                                    let m = w.emitted[*j][w.next[*i][*j]].clone();
+                                    w.next[*i][*j] += 1;
+                                    self.feed(&mut w, *i, &m);
+                                    moved = true;
+                                }
+                            }
+                        }
+                        if !moved {
+                            break;
+                        }
+                    },
+                    PrefixOp::TimersOnceAt(win, at) => {
+                        for i in at {
+                            w.cores[*i].fire_timer(*win);
+                            self.collect(&mut w, *i);
+                        }
+                    }
+                    PrefixOp::ByzTo(k, at) => {
+                        for i in at {
+                            w.byz_delivered[*i][*k] = true;
+                            let vv = self.factory.vote(&self.alpha.byz_votes[*k]);
+                            let o = w.cores[*i].pool.add_vote(vv).1;
+                            w.fins[*i].extend(o.fins);
+                            for e in o.events {
+                                w.cores[*i].q.push_back(e);
+                            }
+                            self.settle(&mut w, *i);
                         }
                     }
                 }
